@@ -20,7 +20,8 @@ from wormhole._dilation._noise import NoiseInvalidMessage, NoiseHandshakeError  
 
 
 class World:
-    def __init__(self, script=None):
+    def __init__(self, script=None, concrete=False):
+        self.concrete = concrete
         self.entries = []   # dict(ct, psk, init, ctr, pt, kind)
         self.script = dict(script or {})
         self.n = 0
@@ -29,7 +30,7 @@ class World:
     def fresh(self, n, kind):
         name = "ct%d" % self.n
         self.n += 1
-        if core.active():
+        if core.active() and not self.concrete:
             b = fresh_bytes(name, n)
             core.eng().inputs[name] = b
             e = core.eng()
